@@ -308,13 +308,55 @@ def own_dict_cache_ok(w: Write, ef):
     return True, ''
 
 
+def _thread_local_names(sm) -> Set[str]:
+    """class- or module-level names bound to `threading.local()`: what hangs below them is per thread"""
+    out = set()
+    for m in sm.modules.values():
+        if not m.name.startswith('musicxml'):
+            continue
+        for n in ast.walk(m.tree):
+            if isinstance(n, ast.Assign) and isinstance(n.value, ast.Call) and (dotted(n.value.func) or '') in ('threading.local', 'local') and not n.value.args:
+                out |= {t.id for t in n.targets if isinstance(t, ast.Name)}
+    return out
+
+
+def _through_thread_local(w: Write, ef, names: Set[str]) -> bool:
+    """the edited object is reached through a `threading.local()` (directly, or through a local bound to something below it): each thread edits its own"""
+    if not names:
+        return False
+    f = w.func
+    g = cfg_of(f.node)
+    pm = ef._parent_map(f)
+    st = w.node
+    while st is not None and st not in g.node_of_stmt:
+        st = pm.get(st)
+    node = g.node_of_stmt.get(st)
+    if node is None:
+        return False
+    for c in ast.walk(w.node):
+        recv = None
+        if isinstance(c, ast.Call) and isinstance(c.func, ast.Attribute) and c.func.attr in MUTATORS:
+            recv = c.func.value
+        elif isinstance(c, (ast.Subscript, ast.Attribute)) and isinstance(getattr(c, 'ctx', None), (ast.Store, ast.Del)):
+            recv = c.value
+        if recv is not None:
+            txt = unparse(dom.expand(g, recv, node))
+            if any(f".{nm}." in txt + '.' or txt.startswith(nm + '.') for nm in names):
+                return True
+    return False
+
+
 def check_shared_state(ctx, cg, ef, rule: str, entries=None):
     """Every shared write of the API closure is one of the enumerated lazy caches and has the publish shape."""
     res = ctx.res
     entries = entries or api_entries(ctx.sm)
     ws, clo = shared_writes(cg, ef, entries)
     seen_caches = set()
+    tl_names = _thread_local_names(ctx.sm)
     for w in sorted(ws, key=lambda x: (x.func.fq, getattr(x.node, 'lineno', 0))):
+        if tl_names and _through_thread_local(w, ef, tl_names):
+            res.ok(rule, w.func.fq, f"`{short(w.node, 60)}` edits per-thread state (reached through a threading.local)")
+            continue
         if w.func.module.name == 'verysimpletree.tree' and w.field in ('_traversed', '_iterated_leaves', '_reversed_path_to_root', '_is_leaf', '_children', '_parent', '_content'):
             # Tree bookkeeping reached through XSDTree construction/deep copies (fresh nodes) is instance-local
             if w.root in ('self', 'unknown') or isinstance(w.root, tuple):
